@@ -227,6 +227,66 @@ pub fn offsets(v: &[i8], rp: &RistrettoPoint) -> String {
         .join(" ")
 }
 
+
+/// 32-byte strings that are the encoding of no group element: fixed ones (a one in the low byte, all ones, p-1 ...)
+/// kept when the decoder of the curve library refuses them, then random ones
+pub fn undecodable(r: &mut Rng, n: usize) -> Vec<String> {
+    use curve25519_dalek::ristretto::CompressedRistretto;
+    let mut one = [0u8; 32]; one[0] = 1;
+    let mut pm1 = [0xffu8; 32]; pm1[0] = 0xec; pm1[31] = 0x7f;
+    let mut hi = [0u8; 32]; hi[31] = 0x80;
+    let mut v: Vec<String> = vec![];
+    for c in [one, [0xffu8; 32], pm1, hi] {
+        if CompressedRistretto(c).decompress().is_none() { v.push(hex(&c)); }
+    }
+    while v.len() < n + 1 {
+        let b: [u8; 32] = r.bytes(32).try_into().unwrap();
+        if CompressedRistretto(b).decompress().is_none() { v.push(hex(&b)); }
+    }
+    // rotate which ones the quick tier sees
+    let k = r.below(v.len() as u64) as usize;
+    v.rotate_left(k);
+    v.truncate(n);
+    v
+}
+
+/// a masking commitment sent as a string that decodes to no group element (the prover absorbs exactly those bytes,
+/// so the challenge matches), at each of the `k` positions, with random nonces and with each `zero_sets` entry of
+/// nonce positions set to zero (the commitment it replaces is then the identity, and reading the bad string as the
+/// identity would make every equation hold): never accepted
+fn raw_masks(o: &mut Out, r: &mut Rng, fam: &str, name: &str, args: &str, n_nonces: usize, k: usize, zero_sets: &[Vec<usize>], nbad: usize) {
+    for j in 0..k {
+        for u in undecodable(r, nbad) {
+            let offs: Vec<String> = (0..k).map(|i| if i == j { format!("raw:{}", u) } else { ZERO_PT.to_string() }).collect();
+            let mut sets: Vec<Vec<usize>> = vec![vec![]];
+            sets.extend(zero_sets.iter().cloned());
+            for zs in sets {
+                let ns: Vec<String> = (0..n_nonces).map(|i| if zs.contains(&i) { ZERO_PT.to_string() } else { hs(&rand_nonzero(r)) }).collect();
+                o.op(fam, &format!("mprove R {} {} {} {}", name, args, ns.join(" "), offs.join(" ")));
+            }
+        }
+    }
+}
+
+/// canonical scalars at the top of the range: 2^252 .. l-1 (top byte 0x10), just below 2^252, 2^251, and l-1, l-2
+pub fn top_scalars(r: &mut Rng) -> Vec<Scalar> {
+    let two252 = { let mut b = [0u8; 32]; b[31] = 0x10; Scalar::from_bytes_mod_order(b) };
+    let mut lowrand = [0u8; 32]; lowrand[..15].copy_from_slice(&r.bytes(15));
+    vec![two252, two252 + Scalar::ONE, two252 + Scalar::from_bytes_mod_order(lowrand), -Scalar::ONE, -Scalar::from(2u64),
+         two252 - Scalar::ONE, { let mut b = [0u8; 32]; b[31] = 0x08; Scalar::from_bytes_mod_order(b) }]
+}
+/// honest proofs one of whose responses is a chosen canonical scalar at the top of the range: with a zero witness
+/// component the response equals the nonce (z = c*0 + y). `args` has a zero amount and/or zero opening; the chosen
+/// value is put in each nonce position in turn
+fn top_responses(o: &mut Out, r: &mut Rng, fam: &str, name: &str, args: &str, n_nonces: usize, k: usize) {
+    for t in top_scalars(r) {
+        for pos in 0..n_nonces {
+            let ns: Vec<String> = (0..n_nonces).map(|i| if i == pos { hs(&t) } else { hs(&rand_nonzero(r)) }).collect();
+            o.op(fam, &format!("mprove A {} {} {} {}", name, args, ns.join(" "), zeros(k)));
+        }
+    }
+}
+
 // ------------------------------------------------------------------ statements
 pub struct ZeroSt { pub k: Kp, pub c: RistrettoPoint, pub d: RistrettoPoint }
 pub fn zero_st(r: &mut Rng, x: &Scalar) -> ZeroSt {
@@ -596,6 +656,30 @@ pub fn gen_c01(o: &mut Out, tier: &str, seed: u64) {
         let st = ctcmt_st(&mut r, a, a);
         mutate_fields(o, &mut r, "ctcmt", &st.wit(), &[224, 256, 288], &[0, 32, 64, 96, 128, 160, 192], th);
     }
+    // undecodable masking commitments / responses at the top of the scalar range
+    {
+        let nb = if th { 3 } else { 1 };
+        let st = zero_st(&mut r, &Scalar::ZERO);
+        raw_masks(o, &mut r, "zero.undecodable-mask", "zero", &st.wit(), 1, 2, &[vec![0]], nb);
+        let k = kp(&mut r);
+        raw_masks(o, &mut r, "pubkey.undecodable-mask", "pubkey", &format!("{} {}", hs(&k.s.invert()), hp(&k.p)), 1, 1, &[vec![0]], nb);
+        let a = amount(&mut r);
+        let st = ctct_st(&mut r, a, a);
+        raw_masks(o, &mut r, "ctct.undecodable-mask", "ctct", &st.mwit(&Scalar::from(a)), 3, 4, &[vec![0], vec![2], vec![0, 1], vec![1, 2], vec![0, 1, 2]], nb);
+        let st = ctcmt_st(&mut r, a, a);
+        raw_masks(o, &mut r, "ctcmt.undecodable-mask", "ctcmt", &st.mwit(&Scalar::from(a)), 3, 3, &[vec![0], vec![0, 1], vec![1, 2], vec![0, 1, 2]], nb);
+        // zero amount, and zero amount with the zero second opening (identity second ciphertext, permitted)
+        let z0 = ctct_st(&mut r, 0, 0);
+        top_responses(o, &mut r, "ctct.zero-amount.top-response", "ctct", &z0.mwit(&Scalar::ZERO), 3, 4);
+        let mut z1 = ctct_st(&mut r, 0, 0);
+        z1.r = Scalar::ZERO; z1.c2 = RistrettoPoint::identity(); z1.d2 = RistrettoPoint::identity();
+        top_responses(o, &mut r, "ctct.zero-amount-zero-opening.top-response", "ctct", &z1.mwit(&Scalar::ZERO), 3, 4);
+        let z0 = ctcmt_st(&mut r, 0, 0);
+        top_responses(o, &mut r, "ctcmt.zero-amount.top-response", "ctcmt", &z0.mwit(&Scalar::ZERO), 3, 3);
+        let mut z2 = ctcmt_st(&mut r, a.max(1), a.max(1));
+        z2.r = Scalar::ZERO; z2.cm = Scalar::from(a.max(1)) * G;
+        top_responses(o, &mut r, "ctcmt.zero-opening.top-response", "ctcmt", &z2.mwit(&Scalar::from(a.max(1))), 3, 3);
+    }
     // ct-ct equality with the permitted identity second ciphertext (amount 0 under the zero opening)
     {
         let mut z = ctct_st(&mut r, 0, 0);
@@ -721,6 +805,15 @@ fn val_family(o: &mut Out, r: &mut Rng, n: usize, batched: bool) {
     // on the auditor's own Y, whose equation reads 0 = c*0 + Y)
     for v in residual_vectors(k) {
         o.op(&format!("{}.id-auditor-residual", name), &format!("mprove R {} {} {} {}", name, mwa, nonces(r, 2), offsets(&v, &rp)));
+    }
+    // a masking commitment that decodes to no group element, on the ordinary and on the no-auditor statement (where
+    // the auditor's own Y is the identity for every nonce)
+    raw_masks(o, r, &format!("{}.undecodable-mask", name), &name, &mw, 2, k, &[vec![0], vec![1], vec![0, 1]], 1);
+    raw_masks(o, r, &format!("{}.id-auditor.undecodable-mask", name), &name, &mwa, 2, k, &[vec![0], vec![1]], 2);
+    // zero amount(s): z_x equals the nonce; responses at the top of the canonical range are accepted like any other
+    {
+        let (_, mw0) = mk(r, 0, 0, None);
+        top_responses(o, r, &format!("{}.zero-amount.top-response", name), &name, &mw0, 2, k);
     }
     // identity non-auditor key: refused
     for i in 0..(n - 1) {
@@ -918,6 +1011,28 @@ pub fn gen_c03(o: &mut Out, tier: &str, seed: u64) {
             z.rc = Scalar::ZERO;
             o.op("cap.id-claimed", &format!("mprove R cap eq {} {} {} {} {} {}", pts(&z), ZERO_PT, hs(&z.rd), ZERO_PT, nonces(&mut r, 5), zeros(3)));
         }
+        // a masking commitment that decodes to no group element, in either branch, with each nonce zeroed in turn
+        // (max branch: nonce 4 = y_max, so Y_max would be the identity; equality branch: nonces 2..4)
+        {
+            let singles: Vec<Vec<usize>> = (0..5).map(|i| vec![i]).chain([vec![2, 3], vec![2, 4], vec![2, 3, 4], vec![0, 1, 2, 3, 4]]).collect();
+            raw_masks(o, &mut r, "cap.undecodable-mask-eq", "cap eq", &format!("{} {} {} {}", pts(&st), hs(&Scalar::from(st.delta)), hs(&st.rd), hs(&st.rc)), 5, 3, &singles, 1);
+            raw_masks(o, &mut r, "cap.undecodable-mask-max", "cap max", &format!("{} {} {} {}", pts(&st2), hs(&st2.rp), ZERO_PT, ZERO_PT), 5, 3, &singles, 1);
+            // at the cap with the zero opening: z_max = c_max*0 + y_max is the nonce itself
+            let st3 = cap_at_rp(&mut r, 1_000_000, 400, max, am2, Scalar::ZERO);
+            for t in top_scalars(&mut r) {
+                let n = format!("{} {} {} {} {}", hs(&rand_scalar(&mut r)), hs(&rand_scalar(&mut r)), hs(&rand_scalar(&mut r)), hs(&rand_scalar(&mut r)), hs(&t));
+                o.op("cap.at-cap-zero-opening.top-response", &format!("mprove A cap max {} {} {} {} {} {}", pts(&st3), hs(&st3.rp), ZERO_PT, ZERO_PT, n, zeros(3)));
+            }
+            // simulated responses are the prover's free choice: each at the top of the range
+            for t in top_scalars(&mut r) {
+                for pos in 0..3 {
+                    let n: Vec<String> = (0..5).map(|i| if i == pos { hs(&t) } else { hs(&rand_nonzero(&mut r)) }).collect();
+                    o.op("cap.simulated-top-response", &format!("mprove A cap max {} {} {} {} {} {}", pts(&st2), hs(&st2.rp), ZERO_PT, ZERO_PT, n.join(" "), zeros(3)));
+                }
+                let n: Vec<String> = (0..5).map(|i| if i == 0 { hs(&t) } else { hs(&rand_nonzero(&mut r)) }).collect();
+                o.op("cap.simulated-top-response", &format!("mprove A cap eq {} {} {} {} {} {}", pts(&st), hs(&Scalar::from(st.delta)), hs(&st.rd), hs(&st.rc), n.join(" "), zeros(3)));
+            }
+        }
         // every non-empty subset of the five nonces zero, in either branch (no a-priori verdict)
         for ns in nonce_subsets(&mut r, 5) {
             o.op("cap.zero-nonce-subset", &format!("mprove - cap eq {} {} {} {} {} {}", pts(&st), hs(&Scalar::from(st.delta)), hs(&st.rd), hs(&st.rc), ns, zeros(3)));
@@ -1109,6 +1224,28 @@ pub fn gen_c05(o: &mut Out, tier: &str, seed: u64) {
             let d = amount(&mut r);
             let s = cap_below(&mut r, pct, max, d);
             emit(o, &mut r, "cap.below", "cap", &s.wit(), 10);
+        }
+        // below the cap at every distance between the fee and the cap: next to it, 2^32, 2^62 and each side of 2^63
+        // away, and a cap of u64::MAX (the branch the prover takes depends on comparing the two)
+        {
+            let mut pairs: Vec<(u64, u64)> = vec![];
+            for pct in [0u64, 1, 250, 1 << 31, 1 << 62, (1 << 63) - 1, 1 << 63, (1 << 63) + 1] {
+                for gap in [2u64, 1 << 32, 1 << 62, (1 << 63) - 1, 1 << 63, (1 << 63) + 1, u64::MAX - pct] {
+                    if gap == 0 { continue; }
+                    if let Some(max) = pct.checked_add(gap) { pairs.push((pct, max)); }
+                }
+            }
+            pairs.push((250, 10_000_000_000_000_000_000));
+            pairs.dedup();
+            let keep = if th { pairs.len() } else { 12 };
+            let start = r.below(pairs.len() as u64) as usize;
+            for i in 0..keep {
+                // the quick tier strides through the list so that every distance class is seen
+                let (pct, max) = pairs[(start + i * if th { 1 } else { 5 }) % pairs.len()];
+                let d = amount(&mut r);
+                let s = cap_below(&mut r, pct, max, d);
+                emit(o, &mut r, "cap.below-distances", "cap", &s.wit(), 10);
+            }
         }
         for (base, bp, max) in [(1_000_000u64, 400u16, 3u64), (u64::MAX, 10_000, 1), (5, 1, 0), (123_456_789, 9_999, u64::MAX)] {
             let claimed = amount(&mut r);
